@@ -921,6 +921,13 @@ def motion_in_space(
     return (final_ra, final_dec)
 
 
+def _asin(x):
+    """Arc sine of a value that, mathematically, lies within [-1, 1] but may
+    have been rounded slightly beyond those limits (e.g., at the poles)."""
+
+    return asin(max(-1.0, min(1.0, x)))
+
+
 def equatorial2ecliptical(right_ascension, declination, obliquity):
     """This function converts from equatorial coordinated (right ascension and
     declination) to ecliptical coordinates (longitude and latitude).
@@ -958,7 +965,7 @@ def equatorial2ecliptical(right_ascension, declination, obliquity):
     dec = declination.rad()
     eps = obliquity.rad()
     lon = atan2((sin(ra) * cos(eps) + tan(dec) * sin(eps)), cos(ra))
-    lat = asin(sin(dec) * cos(eps) - cos(dec) * sin(eps) * sin(ra))
+    lat = _asin(sin(dec) * cos(eps) - cos(dec) * sin(eps) * sin(ra))
     lon = Angle(lon, radians=True)
     lon = lon.to_positive()
     lat = Angle(lat, radians=True)
@@ -1002,7 +1009,7 @@ def ecliptical2equatorial(longitude, latitude, obliquity):
     lat = latitude.rad()
     eps = obliquity.rad()
     ra = atan2((sin(lon) * cos(eps) - tan(lat) * sin(eps)), cos(lon))
-    dec = asin(sin(lat) * cos(eps) + cos(lat) * sin(eps) * sin(lon))
+    dec = _asin(sin(lat) * cos(eps) + cos(lat) * sin(eps) * sin(lon))
     ra = Angle(ra, radians=True)
     ra = ra.to_positive()
     dec = Angle(dec, radians=True)
@@ -1065,7 +1072,7 @@ def equatorial2horizontal(hour_angle, declination, geo_latitude):
     dec = declination.rad()
     lat = geo_latitude.rad()
     azi = atan2(sin(h), (cos(h) * sin(lat) - tan(dec) * cos(lat)))
-    ele = asin(sin(lat) * sin(dec) + cos(lat) * cos(dec) * cos(h))
+    ele = _asin(sin(lat) * sin(dec) + cos(lat) * cos(dec) * cos(h))
     azi = Angle(azi, radians=True)
     ele = Angle(ele, radians=True)
     return (azi, ele)
@@ -1121,7 +1128,7 @@ def horizontal2equatorial(azimuth, elevation, geo_latitude):
     ele = elevation.rad()
     lat = geo_latitude.rad()
     h = atan2(sin(azi), (cos(azi) * sin(lat) + tan(ele) * cos(lat)))
-    dec = asin(sin(lat) * sin(ele) - cos(lat) * cos(ele) * cos(azi))
+    dec = _asin(sin(lat) * sin(ele) - cos(lat) * cos(ele) * cos(azi))
     h = Angle(h, radians=True)
     dec = Angle(dec, radians=True)
     return (h, dec)
@@ -1169,7 +1176,7 @@ def equatorial2galactic(right_ascension, declination):
     lon = Angle(-x, radians=True)
     lon = 303.0 + lon
     lon = lon.to_positive()
-    lat = asin(sin(dec) * sin(c2) + cos(dec) * cos(c2) * cos(c1ra))
+    lat = _asin(sin(dec) * sin(c2) + cos(dec) * cos(c2) * cos(c1ra))
     lat = Angle(lat, radians=True)
     return (lon, lat)
 
@@ -1215,7 +1222,7 @@ def galactic2equatorial(longitude, latitude):
     y = Angle(y, radians=True)
     ra = y + 12.25
     ra.to_positive()
-    dec = asin(sin(lat) * sin(c2) + cos(lat) * cos(c2) * cos(lc1))
+    dec = _asin(sin(lat) * sin(c2) + cos(lat) * cos(c2) * cos(lc1))
     dec = Angle(dec, radians=True)
     return (ra, dec)
 
